@@ -215,6 +215,11 @@ impl OutputBuffer {
         OutputBuffer(b"AMQP\x00\x00\x09\x01".to_vec())
     }
 
+    #[cfg(amiquip_verif)]
+    pub(crate) fn verif_from_vec(v: Vec<u8>) -> OutputBuffer {
+        OutputBuffer(v)
+    }
+
     pub(crate) fn empty() -> OutputBuffer {
         OutputBuffer(Vec::new())
     }
